@@ -181,22 +181,46 @@ def rowsOf (s : String) : List String := (commaList s).map fun h => (unhexS h).g
 structure FS where
   files : List (String × String)
   dirs : List String
+  /-- symbolic links: (path, target string); the real program never creates or removes one -/
+  links : List (String × String)
 deriving Repr
 
+/-- the regular file AT `p` (no link followed) -/
 def FS.file? (fs : FS) (p : String) : Option String := (fs.files.find? (·.1 == p)).map (·.2)
 def FS.isFile (fs : FS) (p : String) : Bool := (fs.file? p).isSome
-def FS.exists (fs : FS) (p : String) : Bool := fs.isFile p || fs.dirs.contains p
-def FS.write (fs : FS) (p c : String) : FS :=
+def FS.isLink (fs : FS) (p : String) : Bool := (linkTarget fs.links p).isSome
+/-- what `p` designates (links at the last component followed) -/
+def FS.real (fs : FS) (p : String) : String := resolve fs.links resolveFuel p
+/-- `os.Lstat` and `os.Stat` on `p` -/
+def FS.entry (fs : FS) (p : String) : Entry :=
+  if fs.isLink p then
+    let r := fs.real p
+    if fs.isFile r then .linkFile else if fs.dirs.contains r then .linkDir else .dangling
+  else if fs.isFile p then .file
+  else if fs.dirs.contains p then .dir
+  else .absent
+/-- `os.ReadFile(p)`: through links -/
+def FS.read? (fs : FS) (p : String) : Option String := fs.file? (fs.real p)
+def FS.put (fs : FS) (p c : String) : FS :=
   if fs.isFile p then { fs with files := fs.files.map fun (q, d) => if q == p then (q, c) else (q, d) }
   else { fs with files := fs.files ++ [(p, c)] }
+/-- can `open(2)` with `O_CREAT` produce / open a regular file at the REAL path `r`?  not when `r` is a directory,
+    still a link (loop), or when its directory does not exist -/
+def FS.writable (fs : FS) (r : String) : Bool :=
+  !fs.dirs.contains r && !fs.isLink r && (fs.isFile r || dirOf r == "." || fs.dirs.contains (dirOf r))
+/-- `os.WriteFile(p, c)`: through links; `none` = the call fails and nothing changes -/
+def FS.write (fs : FS) (p c : String) : Option FS :=
+  let r := fs.real p
+  if fs.writable r then some (fs.put r c) else none
 
 def ancestors : Nat → String → List String
   | 0, d => [d]
   | n + 1, d => if d == "." then ["."] else d :: ancestors n (dirOf d)
 
-/-- `file.Find`: from the working directory upwards to `$HOME` (the sandbox root), regular files only -/
+/-- `file.Find`: from the working directory upwards to `$HOME` (the sandbox root), the first directory with a
+    NON-DIRECTORY entry named `spokfile` (a regular file or any symbolic link); the path is returned unresolved -/
 def findSpokfile (fs : FS) (cwd : String) : Option String :=
-  ((ancestors 16 cwd).map (joinPath · "spokfile")).find? fs.isFile
+  ((ancestors 16 cwd).map (joinPath · "spokfile")).find? fun p => (fs.entry p).findable
 
 def optionsOf (flags : List String) : Options :=
   let has (a b : String) := flags.contains a || flags.contains b
@@ -210,21 +234,27 @@ def givenSpokfile (flags : List String) : Option String :=
 def baseOf (p : String) : String := (p.splitOn "/").getLastD ""
 
 /-- world facts and the spokfile in use, for one step -/
-def worldOf (c : Case) (fs : FS) (st : StepSpec) (cwdHas : Bool) : World × Option String :=
+def worldOf (c : Case) (fs : FS) (st : StepSpec) : World × Option String :=
   let o := optionsOf st.flags
   let sp : Option String := match givenSpokfile st.flags with
     | some p => some p
     | none => findSpokfile fs st.cwd
-  let isProj := sp == some (joinPath c.proj "spokfile") && c.proj != ""
+  -- the spec of the case describes the FILE that `<proj>/spokfile` designates, by whatever path it is reached
+  let isProj := c.proj != "" && sp.map fs.real == some (fs.real (joinPath c.proj "spokfile"))
+  -- `exists(.env)` follows links; `godotenv.Load` fails on a directory and on the generator's bad text
   let dotenvOk := match sp with
-    | some p => !(fs.isFile (joinPath (dirOf p) ".env") && isProj && c.dotenv == "b")
+    | some p =>
+      (match fs.entry (joinPath (dirOf p) ".env") with
+       | .dir | .linkDir => false
+       | .file | .linkFile => c.dotenv != "b"
+       | .absent | .dangling => true)
     | none => true
   let w : World :=
-    { cwdSpokfile := cwdHas
+    { cwdEntry := fs.entry (joinPath st.cwd "spokfile")
       found := o.spokfileGiven || sp.isSome
       nameOk := match sp with | some p => baseOf p == "spokfile" | none => true
       dotenvOk := dotenvOk
-      readable := match sp with | some p => fs.isFile p | none => true
+      readable := match sp with | some p => (fs.entry p).readable | none => true
       parses := if isProj then c.parses else true
       loads := if isProj then c.loads else true
       hasDefault := c.tasks.any (·.name == "default")
@@ -308,39 +338,49 @@ def resultsFrom (c : Ctx) (req : List String) (log : List (Nat × Nat)) : List R
 def lines (s : String) : List String := (s.splitOn "\n").filter (· ≠ "")
 
 def modelStep (cs : Case) (fs : FS) (st : StepSpec) (log : List (Nat × Nat)) : StepOut × FS × Ctx :=
-  let fs := st.edits.foldl (fun f (p, c) => f.write p c) fs
+  let fs := st.edits.foldl (fun f (p, c) => (f.write p c).getD f) fs
   let o := optionsOf st.flags
-  let (w, sp) := worldOf cs fs st (fs.exists (joinPath st.cwd "spokfile"))
-  let ctx : Ctx := { tasks := cs.tasks, vars := evalVars cs st.cwd, opts := o, args := st.args, world := w, cwd := st.cwd, spokfile := sp }
+  let (w, sp) := worldOf cs fs st
+  let ctx : Ctx := { tasks := cs.tasks, vars := evalVars cs st.cwd, opts := o, args := st.args, world := w, cwd := st.cwd, spokfile := sp,
+                     links := fs.links }
   let a := action o st.args w
   let req := requested a
   let planOk := req.all fun n => (findTask ctx n).isSome
   let ran : Option (List Result) := if a.isRun && planOk then some (resultsFrom ctx req log) else none
-  let exit := exitOf o a ran
+  let exit0 := exitOf o a ran
   let named :=
     if (failedTasks ctx log).isEmpty then "-"
     else match ran with
       | some rs => (match (outcome o rs).failingTask with | some t => t | none => "none")
       | none => "none"
   -- writes outside the cache directory, and the state afterwards
-  let (wr, fs') : List String × FS := match a with
+  -- (every path reported is the REAL one: `os.WriteFile` / `os.OpenFile` follow symbolic links)
+  let (wr, fs', failed) : List String × FS × Bool := match a with
     | .initialise =>
-      let sf := joinPath st.cwd "spokfile"
-      let gi := joinPath st.cwd ".gitignore"
-      ([gi ++ (if fs.isFile gi then ":app" else ":new"), sf ++ ":new"], (fs.write sf "demo").write gi "ignore")
+      -- `exists` said no: `<cwd>/spokfile` is absent or a dangling link (then the link's target is created);
+      -- os.WriteFile first, and only when that succeeded os.OpenFile(.gitignore, O_APPEND|O_CREATE)
+      let sf := fs.real (joinPath st.cwd "spokfile")
+      let gi := fs.real (joinPath st.cwd ".gitignore")
+      (match fs.write sf "demo" with
+       | none => ([], fs, true)
+       | some fs1 =>
+         (match fs1.write gi "ignore" with
+          | none => ([sf ++ ":new"], fs1, true)
+          | some fs2 => ([gi ++ (if fs.isFile gi then ":app" else ":new"), sf ++ ":new"], fs2, false)))
     | .fmt =>
-      (match sp with
+      (match sp.map fs.real with
        | some p =>
          let old := (fs.file? p).getD ""
          let pr := parse (bytesOf old)
          (match pr.fail with
           | none =>
             let new := String.ofList ((flat (format pr.tree)).map fun b => Char.ofNat b.toNat)
-            if new == old then ([], fs)
-            else ([p ++ (if old.length < new.length && old.toList.isPrefixOf new.toList then ":app" else ":mod")], fs.write p new)
-          | some _ => (["?model-parse-failed"], fs))
-       | none => (["?no-spokfile"], fs))
-    | _ => ([], fs)
+            if new == old then ([], fs, false)
+            else ([p ++ (if old.length < new.length && old.toList.isPrefixOf new.toList then ":app" else ":mod")], fs.put p new, false)
+          | some _ => (["?model-parse-failed"], fs, false))
+       | none => (["?no-spokfile"], fs, false))
+    | _ => ([], fs, false)
+  let exit := if failed then 1 else exit0
   let out := stdoutOf o a (cs.tasks.map fun t => (t.name, t.doc)) ctx.vars ran
   let streamOn := !nullStream o
   let executedCmds : List CmdSpec := match ran with
@@ -365,7 +405,14 @@ def modelStep (cs : Case) (fs : FS) (st : StepSpec) (log : List (Nat × Nat)) : 
 
 def initialFS (c : Case) : FS :=
   { files := (c.tree.filter (·.kind == "f")).map (fun e => (e.path, e.content)),
-    dirs := (c.tree.filter (·.kind == "d")).map (·.path) }
+    dirs := (c.tree.filter (·.kind == "d")).map (·.path),
+    links := (c.tree.filter (·.kind == "l")).map (fun e => (e.path, e.content)) }
+
+/-- `CWDSF`: what the harness found at `<cwd>/spokfile` in the real sandbox before the invocation
+    (`os.Lstat` for the entry, `os.Stat` for what is behind a link) -/
+def entryOfCode (s : String) : Entry :=
+  if s == "f" then .file else if s == "d" then .dir else if s == "lf" then .linkFile
+  else if s == "ld" then .linkDir else if s == "lx" then .dangling else .absent
 
 structure Acc where
   fs : FS
@@ -381,8 +428,8 @@ def runCase (c : Case) (secs : List (String × List String)) : Acc :=
     let log := parseLog (sectAt secs "LOG" i)
     let (so, fs', ctx) := modelStep c acc.fs st log
     -- the judges look at the implementation's observation; the world they are told about is the generator's,
-    -- except "is there a spokfile entry in the working directory", which is read off the real snapshot
-    let ctxJ : Ctx := { ctx with world := { ctx.world with cwdSpokfile := sectAt secs "CWDSF" i == "1" } }
+    -- except "what is `<cwd>/spokfile`" (absent, file, directory, link to ...), which is read off the real sandbox
+    let ctxJ : Ctx := { ctx with world := { ctx.world with cwdEntry := entryOfCode (sectAt secs "CWDSF" i) } }
     let ob : Obs :=
       { exit := (sectAt secs "EXIT" i).toInt?.getD 0
         outEmpty := sectAt secs "OUT" i == "empty"
